@@ -31,7 +31,7 @@ def main():
     uids = {}
     ids = {}            # id(ex) -> state id bytes as computed by the real get_state_id
     id_tokens = {}
-    trace = {"setup": None, "states": {}, "frontiers": {}, "evaluated": [], "handled": [], "calls": [], "probe_names": {}}
+    trace = {"setup": None, "states": {}, "frontiers": {}, "evaluated": [], "handled": [], "calls": [], "probe_names": {}, "components": {}}
     probe_tokens = {}
 
     def uid(ex):
@@ -55,10 +55,28 @@ def main():
 
     orig_gsi = m.get_state_id
 
+    def components(ex):
+        """what the state consists of at this moment, read off the Exec itself (not through
+        snapshot_state): term ids, code identities, storage items, path conditions and slice"""
+        path = ex.path
+        return {
+            "balance": ex.balance.get_id(),
+            "code": [[int_of(a), id(c)] for a, c in ex.code.items()],
+            "storage": [[int_of(a), [[list(k) if isinstance(k, tuple) else k, v.get_id()] for k, v in st._mapping.items()]]
+                        for a, st in ex.storage.items()],
+            "conds": [c.get_id() for c in path.conditions],
+            "sliced": None if path.sliced is None else sorted(path.sliced),
+            "cond_text": {str(i): str(c)[:120] for i, c in enumerate(path.conditions) if path.sliced is not None and i in path.sliced},
+        }
+
     def get_state_id(ex):
+        u = uid(ex)
+        try:
+            trace["components"][u] = components(ex)
+        except Exception as e:  # noqa: BLE001
+            trace["components"][u] = {"error": repr(e)}
         v = orig_gsi(ex)
         ids[id(ex)] = bytes(v)
-        uid(ex)
         return v
 
     m.get_state_id = get_state_id
